@@ -35,7 +35,9 @@ Inductive ekind :=
 
 Inductive fuelkind := FLoop | FDepth.
 
-Inductive psite := SiteUnwrap.   (* Result::unwrap on a failed conversion *)
+(* where Rust code can panic: Result::unwrap on a failed conversion, an arithmetic negation that overflows (debug build),
+   a slice &s[a..b] with a > b, b > len or an end that is not on a char boundary *)
+Inductive psite := SiteUnwrap | SiteNeg | SiteSlice.
 
 Inductive pres (A : Type) : Type :=
 | POk (rest : input) (a : A)
@@ -534,6 +536,17 @@ Fixpoint digits_val (radix max : Z) (acc : Z) (ds : list byte) : option Z :=
   end.
 
 Definition i64_max : Z := 9223372036854775807.
+Definition i64_min : Z := -9223372036854775808.
+
+(* ---------- partial operations: the panic-capable operations of the parser files, with their preconditions ----------
+   [-v] on an i64 (debug build: "attempt to negate with overflow" for i64::MIN) *)
+Definition checked_neg (v : Z) : option Z := if Z.eqb v i64_min then None else Some (- v).
+(* [&s[a..b]] on a &str: a <= b <= len and both ends on char boundaries (a byte 10xxxxxx continues a character) *)
+Definition is_cont (b : byte) : bool := between 128 191 b.
+Definition boundary (i : input) (n : nat) : bool :=
+  match skipn n i with [] => Nat.leb n (length i) | b :: _ => negb (is_cont b) end.
+Definition slice_p (i : input) (a b : nat) : option input :=
+  if Nat.leb a b && Nat.leb b (length i) && boundary i a && boundary i b then Some (firstn (b - a) (skipn a i)) else None.
 Definition i32_max : Z := 2147483647.
 
 Definition parse_unsigned (radix max : Z) (ds : list byte) : option Z := digits_val radix max 0 ds.
